@@ -495,7 +495,24 @@ pub fn mon_credit(scn: &Scenario, r: &Record, out: &mut V) {
 // ACK (C08)
 // ------------------------------------------------------------------------------------------
 
+fn _scn_for_pn(scn: &Scenario) -> bool {
+    scn.key_update_every.is_none()
+}
+
 pub fn mon_ack(scn: &Scenario, r: &Record, out: &mut V) {
+    // packet numbers always reconstruct: when nothing on the path damaged a datagram (no corrupting or
+    // truncating deviation, no forgery) and the keys are not being updated, a packet that fails
+    // decryption is a genuine packet whose number the receiver expanded to something else than was sent
+    if _scn_for_pn(scn) && !r.dgrams.iter().any(|d| !d.delivered_intact || d.from == 2) {
+        for e in &r.events {
+            if let Ev::PacketDropped { reason } = &e.ev {
+                if reason == "DecryptionFailed" {
+                    v(out, "ack.pn_not_reconstructed", format!("{} dropped a genuine, undamaged packet at {} us: {} (with no key update in progress the only cause is a wrongly expanded packet number)", epn(e.ep), e.t, reason));
+                }
+            }
+        }
+    }
+
     for ep in [CLIENT, SERVER] {
         let mut received: [BTreeMap<u64, u64>; 3] = [BTreeMap::new(), BTreeMap::new(), BTreeMap::new()]; // pn -> first rx time
         let mut last_pn: HashMap<(u64, u8), u64> = HashMap::new();
